@@ -40,6 +40,15 @@ def run(ctx):
             b = a.add(seconds=int(span_steps * amount * per) + rng.choice((0, 0, 1))) if unit != "microseconds" else a.add(microseconds=span_steps * amount + rng.choice((0, 1)))
         except (OverflowError, ValueError):
             continue
+        if unit in ("years", "months") and rng.random() < 0.6:
+            # calendar units: ends placed ON and next to the k-th calendar anniversary of the start (clamped month ends, the day
+            # before / after it, one microsecond either side) - where "reachable", "not beyond the end" and clamping meet
+            try:
+                kk = min(span_steps, 400 if unit == "years" else 4000)
+                b = a.add(**{unit: kk * amount})
+                b = rng.choice((b, b, b.subtract(days=1), b.add(days=1), b.subtract(microseconds=1), b.add(microseconds=1), b.subtract(days=rng.randrange(1, 4))))
+            except (OverflowError, ValueError):
+                continue
         if b.year > 9000:
             continue
         mode = rng.random()
